@@ -114,6 +114,18 @@ class E:
         return c
 
     def assume(self, c):
+        # every assumption a contract makes is listed in the evidence with its source line (mechanical scan: preconditions on
+        # the symbolic inputs, representation invariants of input traces, and explicitly named LEMMA INSTANCES)
+        try:
+            import linecache
+            import sys as _sys
+            fr = _sys._getframe(1)
+            fn = fr.f_code.co_filename
+            if "/contracts/" in fn:
+                src = linecache.getline(fn, fr.f_lineno).strip()
+                self.ctx.notes.append(f"contract assumption {fn.split('/contracts/')[-1]}:{fr.f_lineno}: {src[:160]}")
+        except Exception:
+            pass
         self.ctx.assume(self.z(c))
 
     def eq(self, a, b):
